@@ -256,6 +256,63 @@ def run(chk):
             except Undecided as e:
                 v, d = UNDECIDED, e.cause
             chk.add("C16.J", key, v, d, where=where_of(b), sample=dict(obligation=key, verdict=v) if L == 2 else None)
+    # ------------------------------------------------------------------ C16.K lists of *constant* terms, concretely
+    # (the opaque-term rule above cannot place the constants 0 / 1 inside longer lists: is_zero / is_one shortcuts of the
+    # printers are decided here on real terms) - the printed text, read with the grammar, has the value of the list
+    import itertools as _it
+    from ..window import ElemKind
+    from ..absint import wconst
+    for adt, sep, red in ((SOP, " | ", "or"), (SOES, " | ", "or"), (ESOP, " ^ ", "xor")):
+        b = disp.get(adt)
+        short = adt.split("::")[-1]
+        if b is None:
+            continue
+        try:
+            C = Container(facts, adt)
+            E = ElemKind(facts, C.elem)
+        except (KeyError, Undecided) as e:
+            chk.undecided("C16.K", "%s of constant terms" % short, str(getattr(e, "cause", e)))
+            continue
+        consts = (1,) if E.kind == "cube" else (0, 1)      # a cube list cannot hold the (non-canonical) zero cube
+
+        def mk_const(c_):
+            fs = []
+            for t_ in E.fts:
+                fs.append(W(1, val=c_) if t_["k"] == "bool" else W(t_["w"], val=0))
+            return Agg("adt", E.adt, 0, fs)
+        for L in (1, 2, 3):
+            for combo in _it.product(consts, repeat=L):
+                key = "%s of the constant terms %s" % (short, list(combo))
+                try:
+                    it = Interp(facts, max_paths=256)
+                    st0 = State()
+                    cell = new_cell()
+                    st0.mem[cell] = Arr([mk_const(c_) for c_ in combo])
+                    f = [None, None]
+                    f[C.nv] = wconst(64, 2)
+                    f[C.cv] = Ptr(cell, (), (0, L), "vec")
+                    c = new_cell()
+                    st0.mem[c] = Agg("adt", C.adt, 0, f)
+                    fc = new_cell()
+                    st0.mem[fc] = Opaque("formatter", ((),))
+                    outs = it.call_body(b, [Ptr(c, ()), Ptr(fc, ())], st0, {})
+                    o, v, d = single_return(outs)
+                    if o is not None:
+                        txt = text_of(it.read_ptr(o.state, Ptr(fc, ())).data[0])
+                        parts = txt.split(sep)
+                        want = 0
+                        for c_ in combo:
+                            want = (want | c_) if red == "or" else (want ^ c_)
+                        if not txt or any(p_ not in ("0", "1") for p_ in parts):
+                            v, d = UNDECIDED, "text %r of constant terms is not a formula over 0 / 1 with the joiner %r" % (txt, sep)
+                        else:
+                            got = 0
+                            for p_ in parts:
+                                got = (got | int(p_)) if red == "or" else (got ^ int(p_))
+                            v, d = (PROVED, "") if got == want else (REFUTED, "%s of the constant terms %s prints %r, which is %d, while the %s of the terms (value()) is %d" % (short, list(combo), txt, got, red.upper(), want))
+                except Undecided as e:
+                    v, d = UNDECIDED, e.cause
+                chk.add("C16.K", key, v, d, where=where_of(b))
     # ------------------------------------------------------------------ C16.V what value() returns
     # C16.C/E/J compare the text with the denotation of the *representation*; the property compares it with what
     # value() returns: these are the value rules of C12/C13/C14/C15, re-run here so that C16 stands on its own
